@@ -69,8 +69,8 @@ def tree_s():
             st.builds(lambda a, b: {"m": "dismax", "a": a, "b": b}, ch, ch),
             st.builds(lambda a: {"m": "inverse", "a": a, "missing": []}, ch),
             st.builds(lambda a, ms: {"m": "inverse", "a": a, "missing": ms}, ch, st.lists(st.integers(0, 32), max_size=5)),
-            st.builds(lambda a, ids, ex: {"m": "filter", "a": a, "ids": ids, "exclude": ex}, ch,
-                      st.lists(st.integers(0, 30), max_size=10), st.booleans()),
+            st.builds(lambda a, ids, ex, b: {"m": "filter", "a": a, "ids": ids, "exclude": ex, "boost": b}, ch,
+                      st.lists(st.integers(0, 30), max_size=10), st.booleans(), st.sampled_from([1.0, 1.0, 2.0, 0.5])),
             st.builds(lambda a, b: {"m": "wrap", "a": a, "boost": b}, ch, st.sampled_from([0.5, 2.0])),
             st.builds(lambda xs, ps, sc: {"m": "arrayunion", "xs": xs, "partsize": ps, "scored": sc},
                       st.lists(ch, min_size=2, max_size=4), st.sampled_from([2, 3, 5, 2048]), st.booleans()),
@@ -110,7 +110,8 @@ def build_tree(t):
             child = matching.FilterMatcher(child, miss, exclude=True)
         return matching.InverseMatcher(child, LIMIT, missing=miss.__contains__)
     if k == "filter":
-        return matching.FilterMatcher(build_tree(t["a"]), frozenset(t["ids"]), exclude=t["exclude"])
+        return matching.FilterMatcher(build_tree(t["a"]), frozenset(t["ids"]), exclude=t["exclude"],
+                                      boost=t.get("boost", 1.0))
     if k == "wrap":
         return matching.WrappingMatcher(build_tree(t["a"]), boost=t["boost"])
     if k == "arrayunion":
